@@ -148,6 +148,56 @@ def lane(li, n, limit):
     sh("git checkout -- .", cwd=wt)
 
 
+def recheck():
+    """re-run the mapped checks for undetected survivors whose earlier run timed out, hit a machinery error,
+    or did not include a check that is mapped to the file now"""
+    base = "/tmp/mut_lane_r"
+    wt, vdir = f"{base}/wt", f"{base}/verif"
+    os.makedirs(base, exist_ok=True)
+    if not os.path.exists(wt):
+        c, o = sh(f"git -C /repo worktree add --detach {wt} HEAD")
+        assert c == 0, o
+    for p in sorted(os.listdir("/verif/mutants")):
+        if not p.startswith("lane_"):
+            continue
+        path = os.path.join("/verif/mutants", p)
+        recs = [json.loads(l) for l in open(path)]
+        changed = False
+        for rec in recs:
+            if rec["status"] != "survives-baseline" or rec.get("detected_by"):
+                continue
+            cks = rec.get("checks", {})
+            need = [c for c in FILES[rec["file"]] if c not in cks or "TIMEOUT" in cks[c]["tail"] or "MACHINERY" in cks[c]["tail"]]
+            if not need:
+                continue
+            sh("git checkout -- .", cwd=wt)
+            fp = os.path.join(wt, rec["file"])
+            lines = open(fp).read().split("\n")
+            if lines[rec["line"] - 1].strip() != rec["old"]:
+                continue
+            ind = lines[rec["line"] - 1][: len(lines[rec["line"] - 1]) - len(lines[rec["line"] - 1].lstrip())]
+            lines[rec["line"] - 1] = (ind + rec["new"]) if rec["new"] else ""
+            open(fp, "w").write("\n".join(lines))
+            sh(f"mkdir -p {vdir} && rsync -a --delete --exclude target --exclude .work --exclude replays --exclude .git --exclude evidence --exclude mutants --exclude seeded --exclude refactorings /verif/ {vdir}/ && "
+               f"sed -i 's#path = \"/repo\"#path = \"{wt}\"#' {vdir}/harness/Cargo.toml {vdir}/sched/Cargo.toml")
+            for chk in need:
+                t0 = time.time()
+                c, o = sh(f"./check {chk} --tier quick 2>&1 | tail -6", cwd=vdir, timeout=2400)
+                det = f"VIOLATION property={chk}" in o
+                cks[chk] = {"detected": det, "wall_s": round(time.time() - t0, 1), "tail": o[-300:] if not det else ""}
+                if det:
+                    break
+            rec["checks"] = cks
+            rec["detected_by"] = [k for k, v in cks.items() if v["detected"]]
+            changed = True
+            print("recheck", rec["id"], rec["file"], rec["line"], rec["detected_by"], flush=True)
+        if changed:
+            with open(path, "w") as fh:
+                for rec in recs:
+                    fh.write(json.dumps(rec) + "\n")
+    sh("git checkout -- .", cwd=wt)
+
+
 def summary():
     recs = []
     for p in sorted(os.listdir("/verif/mutants")):
@@ -175,6 +225,8 @@ if __name__ == "__main__":
         print(Counter(x[0] for x in c))
     elif "--summary" in sys.argv:
         summary()
+    elif "--recheck" in sys.argv:
+        recheck()
     else:
         li, n = int(sys.argv[1]), int(sys.argv[2])
         limit = int(sys.argv[sys.argv.index("--limit") + 1]) if "--limit" in sys.argv else None
